@@ -38,14 +38,14 @@ def cases(tier, seed):
     base = []
     if tier == 'quick':
         base += designs.op_cases([1, 3, 4], ops='w~&|^n+-<>=xcsm', mul_max=0) + designs.op_cases([1, 3], ops='*', mul_max=3)
-        base += designs.constop_cases() + designs.dup_cases() + designs.misc_cases()
+        base += designs.constop_cases() + designs.dup_cases() + designs.misc_cases() + designs.carg_cases((1, 3))
         base += designs.expr_cases(25, seed, n=6, maxw=4) + designs.seq_cases()
     else:
         base += designs.op_cases([1, 2, 3, 4, 5, 8], ops='w~&|^n+-<>=xcsm', mul_max=0) + designs.op_cases([1, 2, 3, 4], ops='*', mul_max=4)
-        base += designs.constop_cases() + designs.dup_cases() + designs.misc_cases()
+        base += designs.constop_cases() + designs.dup_cases() + designs.misc_cases() + designs.carg_cases((1, 2, 3, 4))
         base += designs.expr_cases(150, seed, n=8, maxw=5) + designs.seq_cases(widths=(1, 4, 8))
     for i, c in enumerate(base):
-        if c['fam'] in ('CONSTOP', 'DUP', 'MISC'):
+        if c['fam'] in ('CONSTOP', 'DUP', 'MISC', 'CARG'):
             combos = [(b, p) for b in ('word', 'synth') for p in ('optimize', 'constprop', 'cse')]
             if tier != 'quick':
                 combos += [('nand', 'optimize'), ('aig', 'optimize'), ('word', 'optimize2'), ('synth', 'cse+constprop'),
